@@ -5,10 +5,10 @@ open Node
 theorem inert_voidZero : Inert voidZero := by
   intro σ; simp [voidZero, erase]
 
-theorem noBlk_voidZero : noBlk voidZero = true := by
+theorem noBlk_voidZeroE : noBlk voidZero = true := by
   unfold voidZero
   rw [noBlk_eq]
-  simp only [isBlockNode, kids, noBlkL_cons, noBlkL_nil, noBlk_lit (e := Node.lit "NumericLiteral" "{\"value\":0.0,\"raw\":null}" "" Span.dummy) rfl]
+  simp only [isBlockNode, kids, noBlkL_cons, noBlkL_nil, noBlk_litE (e := Node.lit "NumericLiteral" "{\"value\":0.0,\"raw\":null}" "" Span.dummy) rfl]
   rfl
 
 theorem replaceElem_Er (cx : Cx) (lo hi : Nat) (a' a : Node) (mode : IdentMode) (asg args : List Node) (sp : Span)
@@ -26,7 +26,7 @@ theorem replaceElem_Er (cx : Cx) (lo hi : Nat) (a' a : Node) (mode : IdentMode) 
       subst hx
       exact inert_arg inert_voidZero) (by
       simp only [noBlkL_cons, noBlkL_nil, Bool.and_true]
-      exact noBlk_arg noBlk_voidZero)
+      exact noBlk_argE noBlk_voidZeroE)
 
 theorem replaceElems_Er (cx : Cx) (lo hi : Nat) (mode : IdentMode) (sp : Span) :
     ∀ (xs' xs asg args : List Node) (s : St), HypW cx hi s → Forall2 (Er cx lo hi) xs' xs →
